@@ -392,3 +392,29 @@ def _count_increments(fn, path, local):
                 if l.k >= 1 and len(l.terms) == 1:
                     n += l.k
     return n
+
+
+def clause_park_rows_together(R, F):
+    """set_pending_tx writes the pool row and the txid side-table row on every success path, keyed by the transaction's own
+    hash / (account, nonce), with the call's txid as value"""
+    from tablerules import db_fn, calls_on_field
+    fn = db_fn(F, "set_pending_tx")
+    if fn is None:
+        R.violation("ANCHOR", "database", "ANCHOR|set_pending_tx", "set_pending_tx not found")
+        return
+    sets = calls_on_field(fn, {"set"})
+    for fld in ("db_pending_txes", "db_pending_txes_op_return_tx_ids"):
+        cs = sets.get(fld, [])
+        R.ob(bool(cs) and must_pass_on_success(fn, [c.bb for c in cs]), "DOM-all", fn.where(), "DOM-all|set_pending_tx|%s" % fld,
+             "parking a transaction does not write %s on every success path: a stale row of an earlier park of the same transaction "
+             "stays in force (the drained transaction then sees the wrong Bitcoin transaction id)" % fld,
+             sample={"rule": "DOM-all", "fn": "set_pending_tx", "row": fld})
+    for c in sets.get("db_pending_txes_op_return_tx_ids", []):
+        k, v = origin(fn, c.args[2]), origin(fn, c.args[3])
+        R.ob(mentions(k, ".hash") and mentions(k, "tx"), "WIRE", c.where(), "WIRE|set_pending_tx|txid-key", "txid row keyed by `%s`, not by the transaction's hash" % show(k)[:60])
+        names = fn.j.get("param_names") or []
+        pi = names.index("op_return_tx_id") + 1 if "op_return_tx_id" in names else None
+        import wire as W
+        vv = W.strip(v)
+        R.ob(vv[0] == "param" and (pi is None or vv[1] == pi), "WIRE", c.where(), "WIRE|set_pending_tx|txid-value", "txid row holds `%s`, not the call's txid" % show(v)[:60],
+             sample={"rule": "WIRE", "fn": "set_pending_tx", "txid_row": "tx.hash -> op_return_tx_id"})
